@@ -62,8 +62,17 @@ fn read_buffer(
     compression_codec: Option<CompressionCodec>,
     decompression_context: &mut DecompressionContext,
 ) -> Result<Buffer, ArrowError> {
-    let start_offset = buf.offset() as usize;
-    let buf_data = a_data.slice_with_length(start_offset, buf.length() as usize);
+    let (offset, length) = (buf.offset(), buf.length());
+    let in_bounds = offset >= 0
+        && length >= 0
+        && (offset as u64).saturating_add(length as u64) <= a_data.len() as u64;
+    if !in_bounds {
+        return Err(ArrowError::IpcError(format!(
+            "Buffer with offset {offset} and length {length} is out of bounds of the message body of {} bytes",
+            a_data.len()
+        )));
+    }
+    let buf_data = a_data.slice_with_length(offset as usize, length as usize);
     // corner case: empty buffer
     match (buf_data.is_empty(), compression_codec) {
         (true, _) | (_, None) => Ok(buf_data),
@@ -206,12 +215,25 @@ impl RecordBatchDecoder<'_> {
                     self.next_buffer()?;
                 }
 
-                let type_ids: ScalarBuffer<i8> =
-                    self.next_buffer()?.slice_with_length(0, len).into();
+                let type_ids = self.next_buffer()?;
+                if type_ids.len() < len {
+                    return Err(ArrowError::IpcError(format!(
+                        "Union type ids buffer of {} bytes is too small for {len} values",
+                        type_ids.len()
+                    )));
+                }
+                let type_ids: ScalarBuffer<i8> = type_ids.slice_with_length(0, len).into();
 
                 let value_offsets = match mode {
                     UnionMode::Dense => {
-                        let offsets = self.next_buffer()?.slice_with_length(0, len * 4);
+                        let offsets = self.next_buffer()?;
+                        if offsets.len() / 4 < len {
+                            return Err(ArrowError::IpcError(format!(
+                                "Union offsets buffer of {} bytes is too small for {len} values",
+                                offsets.len()
+                            )));
+                        }
+                        let offsets = offsets.slice_with_length(0, len * 4);
                         // the offsets must be aligned for `i32`: copy them unless alignment is required
                         let offsets = if offsets.as_ptr().align_offset(std::mem::align_of::<i32>()) == 0 {
                             offsets
